@@ -94,7 +94,12 @@ def build(recipe):
     kind, style, var = recipe
     E, ADMBuilder, generate_ids = _imports()
     T = E.TypeDefinition
-    b = ADMBuilder() if style == 1 else ADMBuilder.for_version(2)
+    # style 1: BS.2076-1 track-format references (version None = CHNA-only rules, or explicit version 1);
+    # style 2: BS.2076-2 direct channel-format references
+    if style == 1:
+        b = ADMBuilder.for_version(1) if var % 2 else ADMBuilder()
+    else:
+        b = ADMBuilder.for_version(2)
     prog, sel = None, []
 
     def pc():
@@ -326,6 +331,7 @@ def fault_sites(doc, rng=None, max_targets=None):
     ("lset", addr, attr, i, target|None)     retarget entry i (None = silent track, audioTrackUIDs only)
     ("lins", addr, attr, target)             append a reference (duplicate if already present, loop if ancestor/self)
     ("type", addr, typename)                 change typeDefinition (channel: blocks replaced by valid ones of that type)
+    ("retype", addr, typename)               change typeDefinition of a pack and of its channels consistently
     ("tidx", addr, None|k)                   missing / duplicated track index
     ("param", addr, name)                    object parameter (start, duration, gain, mute, positionOffset, avs)
     ("chan", addr, what)                     channel-level: noblocks twoblocks freq cart noorder nodegree equation duporder
@@ -378,6 +384,10 @@ def fault_sites(doc, rng=None, max_targets=None):
             for tn in TYPE_NAMES:
                 if e.type.name != tn:
                     out.append(("type", (kind, i), tn))
+    for i, e in enumerate(adm.audioPackFormats):
+        for tn in TYPE_NAMES:
+            if e.type.name != tn and e.audioChannelFormats:
+                out.append(("retype", ("apf", i), tn))
     idxs = sorted({t.trackIndex for t in adm.audioTrackUIDs if t.trackIndex is not None})
     for i, t in enumerate(adm.audioTrackUIDs):
         if t.trackIndex is not None:
@@ -394,7 +404,7 @@ def fault_sites(doc, rng=None, max_targets=None):
         if c.type.name == "Objects":
             whats.append("cart")
         if c.type.name == "HOA":
-            whats += ["noorder", "nodegree", "equation", "duporder"]
+            whats += ["noorder", "nodegree", "equation", "duporder", "norm", "scr"]
         for w in whats:
             out.append(("chan", ("acf", i), w))
         if c.type.name == "Matrix":
@@ -408,6 +418,10 @@ def fault_sites(doc, rng=None, max_targets=None):
                         out.append(("cset", ("acf", i), bi, k, None))
                         for t in targets("acf", idx_of("acf", co.inputChannelFormat)):
                             out.append(("cset", ("acf", i), bi, k, t))
+    for i, pk in enumerate(adm.audioPackFormats):
+        if pk.type.name == "HOA":
+            out.append(("ppar", ("apf", i), "norm"))
+            out.append(("ppar", ("apf", i), "scr"))
     for kind in ("ap", "ac"):
         for i, e in enumerate(getattr(adm, LISTS[kind])):
             if e.alternativeValueSets:
@@ -442,12 +456,16 @@ def fault_kind(f):
         return "list-insert-dup-loop"
     if op == "type":
         return "wrong-type"
+    if op == "retype":
+        return "wrong-type-pack-and-channels"
     if op == "tidx":
         return "track-index-missing" if f[2] is None else "track-index-duplicate"
     if op == "param":
         return "object-parameter"
     if op == "chan":
         return "channel-content"
+    if op == "ppar":
+        return "hoa-pack-parameter"
     if op in ("bset", "cset"):
         return "matrix-ref-remove" if f[-1] is None else "matrix-ref-retarget"
     if op == "avs":
@@ -459,7 +477,7 @@ def site_kind(f):
     op = f[0]
     if op in ("set", "ldrop", "lset", "lins"):
         return "%s.%s" % (f[1][0], f[2])
-    if op == "type":
+    if op in ("type", "retype"):
         return "%s.type" % f[1][0]
     if op == "tidx":
         return "atu.trackIndex"
@@ -467,6 +485,8 @@ def site_kind(f):
         return "ao." + f[2]
     if op == "chan":
         return "acf." + f[2]
+    if op == "ppar":
+        return "apf." + f[2]
     if op == "bset":
         return "block.outputChannelFormat"
     if op == "cset":
@@ -498,6 +518,12 @@ def apply_fault(doc, f):
             e.type = E.TypeDefinition[f[2]]
             if f[1][0] == "acf":
                 e.audioBlockFormats = default_blocks(E, f[2], len(e.audioBlockFormats), f[1][1])
+        elif op == "retype":
+            e = doc.elem(f[1])
+            e.type = E.TypeDefinition[f[2]]
+            for k, c in enumerate(e.audioChannelFormats):
+                c.type = E.TypeDefinition[f[2]]
+                c.audioBlockFormats = default_blocks(E, f[2], len(c.audioBlockFormats), k)
         elif op == "tidx":
             doc.elem(f[1]).trackIndex = f[2]
         elif op == "param":
@@ -537,8 +563,17 @@ def apply_fault(doc, f):
                     blk.degree = None
                 elif w == "equation":
                     blk.equation = "foo"
+                elif w == "norm":
+                    blk.normalization = "FuMa"
+                elif w == "scr":
+                    blk.screenRef = True
                 else:
                     blk.order, blk.degree = 0, 0
+        elif op == "ppar":
+            if f[2] == "norm":
+                doc.elem(f[1]).normalization = "FuMa"
+            else:
+                doc.elem(f[1]).screenRef = True
         elif op == "bset":
             blk = doc.elem(f[1]).audioBlockFormats[f[2]]
             blk.outputChannelFormat = None if f[3] is None else doc.elem(tuple(f[3]))
@@ -596,6 +631,10 @@ FAMILIES = [
     ("hoaorder", r"has no 'order' attribute"),
     ("hoadegree", r"has no 'degree' attribute"),
     ("hoadup", r"^duplicate orders and degrees"),
+    ("hoaempty", r"^HOA audioPackFormats must contain at least one audioChannelFormat"),
+    ("unsupportedtype", r"^Don't know how to produce rendering items for type"),
+    ("coeffnoinput", r"^MatrixCoefficient must have an inputChannelFormat"),
+    ("blocktime", r"^rtime and duration must be used together"),
     ("paramshare", r"must share the same"),
     ("parampath", r"^Conflicting \w+ values in path"),
     ("mxnoio", r"must have an input or output audioPackFormat"),
